@@ -770,7 +770,9 @@ class Inliner:
                             env[e.id] = x
                     else:
                         # (a, b = f(..): written out as f(..)[0], f(..)[1] only when evaluating f(..) again gives an interchangeable value)
-                        if not (norm.is_reference(v) or norm.is_scalar(v)):
+                        mapped = isinstance(v, (ast.GeneratorExp, ast.ListComp)) and len(v.generators) == 1 and not v.generators[0].ifs \
+                            and norm.is_reference(v.generators[0].iter) and norm.is_pure(v.elt, _PURE_EXT)       # (E(x) for x in pair)[i] is E(pair[i])
+                        if not (norm.is_reference(v) or norm.is_scalar(v) or mapped):
                             return None
                         for i, e in enumerate(tg.elts):
                             env[e.id] = ast.Subscript(value=copy.deepcopy(v), slice=ast.Constant(i), ctx=ast.Load())
